@@ -346,8 +346,12 @@ func c06Explore(c *core.Ctx, sc *impl.Scratch, fc, dir string, pr *c06Prog, boun
 // c06Headers: re-layouts of the package line and the import lines of the prelude (0 = as written)
 var c06Headers = []func(pkg string, imports []string) string{
 	func(pkg string, imports []string) string { return pkg + "\n" + strings.Join(imports, "\n") + "\n" },
-	func(pkg string, imports []string) string { return "// c\n" + pkg + "\n" + strings.Join(imports, "\n") + "\n" },
-	func(pkg string, imports []string) string { return "\n\n" + pkg + "\n" + strings.Join(imports, "\n") + "\n" },
+	func(pkg string, imports []string) string {
+		return "// c\n" + pkg + "\n" + strings.Join(imports, "\n") + "\n"
+	},
+	func(pkg string, imports []string) string {
+		return "\n\n" + pkg + "\n" + strings.Join(imports, "\n") + "\n"
+	},
 	func(pkg string, imports []string) string {
 		return "/* c\n   c */\n" + pkg + "\n" + strings.Join(imports, "\n") + "\n"
 	},
@@ -355,8 +359,12 @@ var c06Headers = []func(pkg string, imports []string) string{
 	func(pkg string, imports []string) string {
 		return pkg + "\n\n// c\n\n" + strings.Join(imports, "\n") + "\n"
 	},
-	func(pkg string, imports []string) string { return pkg + "\n" + strings.Join(imports, "\n// c\n\n") + "\n" },
-	func(pkg string, imports []string) string { return pkg + "  \n" + strings.Join(imports, "   \n") + " \t\n" },
+	func(pkg string, imports []string) string {
+		return pkg + "\n" + strings.Join(imports, "\n// c\n\n") + "\n"
+	},
+	func(pkg string, imports []string) string {
+		return pkg + "  \n" + strings.Join(imports, "   \n") + " \t\n"
+	},
 	func(pkg string, imports []string) string {
 		return pkg + "\n" + strings.Join(imports, " /* c */\n") + " // c\n\n\n\n/* c */\n"
 	},
